@@ -44,8 +44,8 @@ def plan(run):
     for kind in ('startnf0', 'startnf1', 'startnf2', 'endnf'):
         for plen in range(0, 4):
             add('nf-k<=4', 'base', kind, plen)
-    for cln in ('TX', 'LC'):
-        for plen in range(0, 4):
+    for cln in ('TX', 'LC', 'T3'):
+        for plen in range(0, 4 if cln != 'T3' else 5):
             add('cleavage-k<=4', 'base', 'complete', plen, cln=cln)
     for layout in ('plus2', 'minus2'):
         for plen in range(0, 3):
